@@ -89,6 +89,8 @@ class Gen5(gen.Gen):
         if v is None:
             return None
         d, u, f = self.rng.choice(QUERY_KEYS[:10]) if self.rng.random() < 0.8 else self.rng.choice(QUERY_KEYS)
+        if self.rng.random() < 0.12:
+            f = f"fresh:{self.rng.randrange(5)}"  # a filter object that lives for this one query only
         op = ["nb", v, d, u, f]
         if op not in self.queried:
             self.queried.append(op)
@@ -381,6 +383,10 @@ def prelude():
     twin = [["cache", True], ["mkv", "V0", "Vertex", [], [], "list", 7], ["mkv", "V1", "Vertex", [], [], "list", 7],
             ["mkv", "V2", "Vertex", [], [], "list", 7], ["mkv", "V3", "Vertex", [], []],
             ["mke", "E0", "DirectedEdge", "V0", "V1"], ["mke", "E1", "UnDirectedEdge", "V1", "V2"], ["mke", "E2", "OtherLink", "V2", "V0"]]
+    fresh = [["nb", v, d, u, f"fresh:{n}"] for v in ("V0", "V1", "V2") for (d, u) in (("ANY", "NEIGHBOR"), ("FORWARD", "NEIGHBOR"))
+             for n in (0, 3, 1, 4, 2)]
+    yield base + fresh
+    yield base + fresh + [["trav", "bft", None, "V0", "ANY", "NEIGHBOR", f"fresh:{n}", "none"] for n in (0, 2, 4, 1)]
     for m in muts:
         yield twin + qs + m + qs
     for m in muts:
